@@ -74,13 +74,11 @@ def gen_cases(ctx):
 
 def _scale_cases(ctx, rng):
     """very long chains: traversal depth ~ n (recursion limits), n*n index arithmetic"""
-    for k, n in enumerate(gen.SCALE_SIZES[ctx.tier]):
-        for c, cls in enumerate(CLASS_NAMES):
-            gseed = rng.randrange(1 << 30)
-            r2 = random.Random(gseed)
-            ids = list(gen.scale_pg(random.Random(gseed), cls, n)["atoms"])
-            subs = [["list", r2.sample(ids, len(ids) // 2)], ["set", ids[: len(ids) // 3]]]
-            yield {"cls": cls, "scale": n, "gseed": gseed, "subsets": subs, "cover": ("components", "partition")[(k + c) % 2], "pseed": rng.randrange(1 << 30), "pieces_as": "list"}
+    for k, n, cls, gseed in gen.scale_specs(ctx, rng):
+        r2 = random.Random(gseed)
+        ids = list(gen.scale_pg(random.Random(gseed), cls, n)["atoms"])
+        subs = [["list", r2.sample(ids, len(ids) // 2)], ["set", ids[: len(ids) // 3]]]
+        yield {"cls": cls, "scale": n, "gseed": gseed, "subsets": subs, "cover": ("components", "partition", "components")[k % 3], "pseed": gseed // 3, "pieces_as": "list"}
 
 
 def _check_graph(ctx, got_g, want, cls, case, key, what):
